@@ -1,0 +1,62 @@
+//! Verification-only hooks, compiled only with `--cfg john_yu_sm9_core_verif`.
+//!
+//! Read-only views of internal state (raw Montgomery limbs) and re-exports of the
+//! internal tower / group / pairing engine so that an external monitor can drive
+//! them on arbitrary elements. Nothing here is reachable in a normal build.
+
+pub use crate::fields::{FieldElement, Fq as RawFq, Fq12, Fq2 as RawFq2, Fq4, Fr as RawFr};
+pub use crate::groups::{GroupElement, G1 as RawG1, G2 as RawG2};
+pub use crate::pairings::verif::*;
+pub use crate::pairings::G2Prepared;
+
+/// Raw (Montgomery form) limbs of a public `Fr`, least significant first.
+pub fn fr_limbs(x: &crate::Fr) -> [u64; 4] {
+    let r = x.0.raw();
+    [r[0], r[1], r[2], r[3]]
+}
+/// Raw (Montgomery form) limbs of a public `Fq`, least significant first.
+pub fn fq_limbs(x: &crate::Fq) -> [u64; 4] {
+    let r = x.0.raw();
+    [r[0], r[1], r[2], r[3]]
+}
+pub fn fq_inner(x: &crate::Fq) -> RawFq {
+    x.0
+}
+pub fn fq_from(x: RawFq) -> crate::Fq {
+    crate::Fq(x)
+}
+pub fn fq2_inner(x: &crate::Fq2) -> RawFq2 {
+    x.0
+}
+pub fn fq2_from(x: RawFq2) -> crate::Fq2 {
+    crate::Fq2(x)
+}
+pub fn g1_inner(g: &crate::G1) -> RawG1 {
+    g.0
+}
+pub fn g1_from(g: RawG1) -> crate::G1 {
+    crate::G1(g)
+}
+pub fn g2_inner(g: &crate::G2) -> RawG2 {
+    g.0
+}
+pub fn g2_from(g: RawG2) -> crate::G2 {
+    crate::G2(g)
+}
+pub fn gt_inner(g: &crate::Gt) -> Fq12 {
+    g.0
+}
+pub fn gt_from(f: Fq12) -> crate::Gt {
+    crate::Gt(f)
+}
+/// The interleaved sum-of-products multiplier on arbitrary operand vectors.
+pub fn sum_of_products_2(a: &[RawFq; 2], b: &[RawFq; 2]) -> RawFq {
+    RawFq::sum_of_products(a, b)
+}
+pub fn sum_of_products_4(a: &[RawFq; 4], b: &[RawFq; 4]) -> RawFq {
+    RawFq::sum_of_products(a, b)
+}
+/// Number of precomputed line coefficients held by a prepared G2 value.
+pub fn prepared_len(p: &G2Prepared) -> usize {
+    prepared_coeffs_len(p)
+}
